@@ -702,10 +702,12 @@ def check(prop, tier, keep=False, only=None):
                 # an unwinding assertion of a loop of the harness itself (or of a CBMC builtin such as
                 # memcmp) is an inadequate harness bound, not a property of the code: undecided.
                 def internal(fc):
+                    if "is not currently supported by Kani" in fc["description"]:
+                        return True  # tool limit, not a property of the code
                     return fc["description"].startswith("unwinding assertion") and ("verif_h" in fc["function"] or fc["file"].startswith("<builtin"))
                 real = [fc for fc in r["failed_checks"] if not internal(fc)]
                 if not real:
-                    undecided.append("harness %s: only harness-internal unwinding bounds failed (%s) - harness bound too small, undecided" %
+                    undecided.append("harness %s: only harness-internal unwinding bounds / unsupported constructs failed (%s) - undecided" %
                                      (h.name, "; ".join(fc["function"] for fc in r["failed_checks"])))
                     continue
                 descs = "; ".join(fc["description"] for fc in real) or "unnamed failed check"
@@ -765,7 +767,10 @@ def check(prop, tier, keep=False, only=None):
                    "native_replay": nat, "verifier_output": r["raw"][-6000:],
                    "how_to_replay": "python3 verif.py replay %s" % os.path.relpath(rp, HERE)}
             json.dump(doc, open(rp, "w"), indent=1)
-            suffix = "" if nat["result"] == "reproduced" else " no-failing-input-found"
+            hang = nat["result"] == "timeout" and any(fc["description"].startswith("unwinding assertion") for fc in r["failed_checks"])
+            if hang:
+                nat["detail"] = "the native run of the counterexample did not terminate within 120 s: the non-termination found by the verifier (failed unwinding assertion) is reproduced"
+            suffix = "" if (nat["result"] == "reproduced" or hang) else " no-failing-input-found"
             print("VIOLATION property=%s replay=%s%s" % (prop, rp, suffix))
             log("  harness %s failed obligation(s): %s ; native replay: %s %s" % (h.name, descs, nat["result"], nat.get("detail", "")[:300]))
             replay_paths.append(rp)
